@@ -120,7 +120,7 @@ def gen_cases(tier, seed):
                 for pre in (ENTER[mode] if tier == "thorough" else [rng.choice(ENTER[mode])]):
                     scripts.append(([pre, q] if pre else [q], "parked", False))
         # B: pairs
-        npairs = 6000 if tier == "thorough" else 250
+        npairs = 6000 if tier == "thorough" else 1200
         for _ in range(npairs):
             scripts.append(([rng.choice(full), rng.choice(full)], rng.choice(["parked", "parked", "eof", "err"]), rng.random() < 0.3))
         # C: prefix + ruling-out key
@@ -137,7 +137,7 @@ def gen_cases(tier, seed):
                 arg = [rng.choice([b"\x1b2", b"\x1b-", b"\x1b-\x1b3", b"\x1b9\x1b9", b"\x1b0", b"\x1b1\x1b2"])]
             scripts.append((arg + [rng.choice(full)], rng.choice(["parked", "eof"]), False))
         # F: random words
-        nrand = 3000 if tier == "thorough" else 150
+        nrand = 3000 if tier == "thorough" else 600
         for _ in range(nrand):
             n = rng.randint(3, 40)
             items = []
@@ -162,6 +162,18 @@ def gen_cases(tier, seed):
                 scripts.append((items, "eof", False, at))
                 if rng.random() < 0.3:
                     scripts.append((items, "err", False, at))
+        # G: text typed into the helpers' own input (incremental search of the history or of a completion menu): every
+        #    printable character, in particular the ones that mean something to a pattern matcher
+        META = [b"(", b")", b"[", b"]", b"*", b"+", b"?", b"\\", b"{", b"}", b"|", b"^", b"$", b".", b"[a-", b"(?", b"\\p", b"a{2", b"x**"]
+        if mode != "vi-command":
+            openers = [[b"\x12"], [b"\x13"], [b"\t", b"\x12"], [b"\t", b"\x13"], [b"\x1b=", b"\x12"], [b"\x1b?", b"\x06"], [b"\t", b"\x06"]]
+            for _ in range(1200 if tier == "thorough" else 300):
+                items = list(rng.choice(openers))
+                for _ in range(rng.randint(1, 6)):
+                    x = rng.random()
+                    items.append(rng.choice(META) if x < 0.55 else rng.choice(PRINTABLE) if x < 0.8 else rng.choice([b"\x7f", b"\x12", b"\x13", b"\t"]))
+                items.append(rng.choice([b"\r", b"\x07", b"\x1b", b"a"]))
+                scripts.append((items, "parked", False))
         rng.shuffle(scripts)
         case = None
         for sc in scripts:
@@ -172,6 +184,19 @@ def gen_cases(tier, seed):
             items, end, paste = sc[0], sc[1], sc[2]
             at = sc[3] if len(sc) > 3 else None
             add(case, mode, items, end, paste, at)
+    # H: keys typed ahead while the library waits for the terminal's answer to a cursor position query: the answer is
+    #    withheld, keys arrive in one or several separate reads, then the answer comes alone or sharing a read with more keys
+    nahead = 600 if tier == "thorough" else 150
+    for i in range(nahead):
+        mode = rng.choice(["emacs", "vi-insert"])
+        case = new_case(mode, 100000 + i)
+        case["setups"].append(setup("", 0, mode))
+        sess = [SETUP_KEY, {"k": "gate"}, {"k": "hold"}, keys(rng.choice([b"a", b"ab", b"\x01"])), {"k": "waitheld", "n": 1}]
+        for _ in range(rng.randint(1, 4)):
+            sess += [{"k": "type", "h": rng.choice([b"b", b"cd", b"\x02", "é".encode(), b"xyz", b"\x1b[D"]).hex()}, {"k": "sleep", "n": rng.choice([1, 3, 6])}]
+        sess += [{"k": "rel", "n": 1, "h": rng.choice([b"", b"", b"q", b"rs"]).hex(), "s": "unhold"}, {"k": "gate"}, keys(b"z"), keys(b"\r")]
+        case["sessions"].append(sess)
+        cases.append(case)
     return cases
 
 
